@@ -32,10 +32,14 @@ type pkgRules struct {
 	files    []string // restrict to these files (nil: all)
 	sends    bool     // R6: yield before every channel send
 	selects2 bool     // R5b: two-case receive selects with := bindings
+	heldChan []string // R8: in these files every channel operation is a scheduling point that also exists while the cache mutex is held
 }
 
 var rules = []pkgRules{
 	{dir: "cache/disk", locks: true, lruGuard: true, selects: true,
+		// lru.go: the eviction queue is handed between mutex holders
+		// (appendEvictionToQueue) and the remover, which works without the mutex
+		heldChan: []string{"lru.go"},
 		// (.Done / req.onProxyMiss: the hand-over between a backend lookup
 		// worker, the wait-group waiter and the requesting goroutine)
 		calls: []string{"os.Open", "os.OpenFile", "os.Remove", "os.Rename", "tfc.Create", ".Sync", "io.Copy", ".Done", "req.onProxyMiss"}},
@@ -290,6 +294,13 @@ func (w *rewriter) rewriteList(list []ast.Stmt) []ast.Stmt {
 				continue
 			}
 		}
+		if w.heldChan() {
+			if isChanOpStmt(stmt) {
+				out = append(out, hookCall("YieldHeld", strLit(w.point("R8"))))
+				out = append(out, stmt)
+				continue
+			}
+		}
 		if w.r.sends {
 			if _, ok := stmt.(*ast.SendStmt); ok {
 				out = append(out, hookCall("Yield", strLit(w.point("R6/send"))))
@@ -335,6 +346,33 @@ func (w *rewriter) rewriteList(list []ast.Stmt) []ast.Stmt {
 		out = append(out, stmt)
 	}
 	return out
+}
+
+func (w *rewriter) heldChan() bool {
+	for _, f := range w.r.heldChan {
+		if f == w.file {
+			return true
+		}
+	}
+	return false
+}
+
+// isChanOpStmt: a send, a select, or a statement whose own expression is a
+// channel receive (`<-c`, `x := <-c`, `x, ok = <-c`).
+func isChanOpStmt(stmt ast.Stmt) bool {
+	isRecv := func(e ast.Expr) bool {
+		u, ok := e.(*ast.UnaryExpr)
+		return ok && u.Op == token.ARROW
+	}
+	switch s := stmt.(type) {
+	case *ast.SendStmt, *ast.SelectStmt:
+		return true
+	case *ast.ExprStmt:
+		return isRecv(s.X)
+	case *ast.AssignStmt:
+		return len(s.Rhs) == 1 && isRecv(s.Rhs[0])
+	}
+	return false
 }
 
 // rewriteSelect turns `select { case <-a: A  case <-b: B }` (receive-only, no
@@ -471,6 +509,15 @@ func (w *rewriter) rewriteNested(stmt ast.Stmt) {
 		w.rewriteNested(s.Body)
 	case *ast.SelectStmt:
 		w.rewriteNested(s.Body)
+		if w.heldChan() {
+			// the chosen case's body (and a default body in particular) starts
+			// with a scheduling point: what the select observed may change
+			// before the body acts on it
+			for _, c := range s.Body.List {
+				cc := c.(*ast.CommClause)
+				cc.Body = append([]ast.Stmt{hookCall("YieldHeld", strLit(w.point("R8c")))}, cc.Body...)
+			}
+		}
 	case *ast.CaseClause:
 		s.Body = w.rewriteList(s.Body)
 	case *ast.CommClause:
